@@ -121,9 +121,10 @@ theorem fin_lift (post0 : List St1) (j : Nat) (base : TW) (preS : List St1) (w1 
 /-! ### the invariant -/
 
 /-- Phase A: the world is the lift of the one-stage world driven by the feed.
-    Phase B: the source's terminal was withheld because `post` had finished (its slot is
-    empty since the one-stage log was `L0`); the world is the lift of SOME one-stage world
-    whose log extends `L0`, and so does the log of the one driven by the feed. -/
+    Phase B (never entered since `fix: Subject::error/complete hand the terminal to every
+    subscriber`, kept because it costs nothing): the source's terminal was withheld because `post`
+    had finished (its slot is empty since the one-stage log was `L0`); the world is the lift of SOME
+    one-stage world whose log extends `L0`, and so does the log of the one driven by the feed. -/
 def MainInv (pre0 post0 : List St1) (j : Nat) (w0s : TW) (evs : List TW.Ev) (W : TW) : Prop :=
   (∃ base preS, W = lift post0 j base preS ((feedEvs pre0 evs).foldl TW.step w0s) ∧
       base.src = .hot 0 ∧ base.srcSubscribed = true ∧
